@@ -1,183 +1,11 @@
-(** * Gallina mirror of src/reduction.rs (function by function).
+(** * The Gallina model of src/reduction.rs.
 
-    [&mut self] becomes an input and an output term, [&mut count] is threaded as
-    a pair component.  Rust recursion that may not terminate (limit 0) is given
-    explicit fuel: [None] means "out of fuel", never a normal-looking value. *)
-From LC Require Export Spec.Strategies.
-
-Inductive term_error := NotVar | NotAbs | NotApp.
-
-(** update_free_variables(added_depth, own_depth) *)
-Fixpoint update_free_variables (added own : nat) (t : term) : term :=
-  match t with
-  | Var i => if own <? i then Var (i + added) else Var i
-  | Abs b => Abs (update_free_variables added (S own) b)
-  | App l r => App (update_free_variables added own l) (update_free_variables added own r)
-  end.
-
-(** _apply(rhs, depth) *)
-Fixpoint apply_rec (rhs : term) (depth : nat) (t : term) : term :=
-  match t with
-  | Var i =>
-      match i ?= depth with
-      | Eq => update_free_variables (depth - 1) 0 rhs
-      | Gt => Var (i - 1)
-      | Lt => Var i
-      end
-  | Abs b => Abs (apply_rec rhs (S depth) b)
-  | App l r => App (apply_rec rhs depth l) (apply_rec rhs depth r)
-  end.
-
-(** apply: [Err(NotAbs)] leaves the receiver untouched (the receiver is returned
-    next to the error so that this can be stated) *)
-Definition apply_m (t rhs : term) : (term_error * term) + term :=
-  match t with
-  | Abs _ =>
-      match apply_rec rhs 0 t with   (* self._apply(rhs, 0) on the abstraction itself *)
-      | Abs b' => inr b'             (* ret.unabs().unwrap() *)
-      | other => inl (NotAbs, other) (* unreachable *)
-      end
-  | _ => inl (NotAbs, t)
-  end.
-
-(** eval: only called on [App (Abs _) _] *)
-Definition eval_m (t : term) : term :=
-  match t with
-  | App l r => match apply_m l r with inr t' => t' | inl _ => t end
-  | _ => t
-  end.
-
-Definition limit_hit (limit count : nat) : bool := negb (limit =? 0) && (count =? limit).
-
-Definition is_reducible (t : term) (limit count : nat) : bool :=
-  match t with
-  | App (Abs _) _ => (limit =? 0) || (count <? limit)
-  | _ => false
-  end.
-
-Definition R := option (term * nat).
-Definition bind (x : R) (k : term -> nat -> R) : R :=
-  match x with Some (t, c) => k t c | None => None end.
-Definition ret (t : term) (c : nat) : R := Some (t, c).
-
-Fixpoint beta_cbn (fuel limit count : nat) (t : term) : R :=
-  match fuel with 0 => None | S f =>
-    if limit_hit limit count then ret t count else
-    match t with
-    | App l r =>
-        bind (beta_cbn f limit count l) (fun l1 c1 =>
-        let t1 := App l1 r in
-        if is_reducible t1 limit c1 then beta_cbn f limit (S c1) (eval_m t1)
-        else ret t1 c1)
-    | _ => ret t count
-    end
-  end.
-
-Fixpoint beta_nor (fuel limit count : nat) (t : term) : R :=
-  match fuel with 0 => None | S f =>
-    if limit_hit limit count then ret t count else
-    match t with
-    | Abs b => bind (beta_nor f limit count b) (fun b1 c1 => ret (Abs b1) c1)
-    | App l r =>
-        bind (beta_cbn f limit count l) (fun l1 c1 =>
-        let t1 := App l1 r in
-        if is_reducible t1 limit c1 then beta_nor f limit (S c1) (eval_m t1)
-        else
-          bind (beta_nor f limit c1 l1) (fun l2 c2 =>
-          bind (beta_nor f limit c2 r) (fun r2 c3 =>
-          ret (App l2 r2) c3)))
-    | _ => ret t count
-    end
-  end.
-
-Fixpoint beta_cbv (fuel limit count : nat) (t : term) : R :=
-  match fuel with 0 => None | S f =>
-    if limit_hit limit count then ret t count else
-    match t with
-    | App l r =>
-        bind (beta_cbv f limit count l) (fun l1 c1 =>
-        bind (beta_cbv f limit c1 r) (fun r1 c2 =>
-        let t1 := App l1 r1 in
-        if is_reducible t1 limit c2 then beta_cbv f limit (S c2) (eval_m t1)
-        else ret t1 c2))
-    | _ => ret t count
-    end
-  end.
-
-Fixpoint beta_app (fuel limit count : nat) (t : term) : R :=
-  match fuel with 0 => None | S f =>
-    if limit_hit limit count then ret t count else
-    match t with
-    | Abs b => bind (beta_app f limit count b) (fun b1 c1 => ret (Abs b1) c1)
-    | App l r =>
-        bind (beta_app f limit count l) (fun l1 c1 =>
-        bind (beta_app f limit c1 r) (fun r1 c2 =>
-        let t1 := App l1 r1 in
-        if is_reducible t1 limit c2 then beta_app f limit (S c2) (eval_m t1)
-        else ret t1 c2))
-    | _ => ret t count
-    end
-  end.
-
-Fixpoint beta_hap (fuel limit count : nat) (t : term) : R :=
-  match fuel with 0 => None | S f =>
-    if limit_hit limit count then ret t count else
-    match t with
-    | Abs b => bind (beta_hap f limit count b) (fun b1 c1 => ret (Abs b1) c1)
-    | App l r =>
-        bind (beta_cbv f limit count l) (fun l1 c1 =>
-        bind (beta_hap f limit c1 r) (fun r1 c2 =>
-        let t1 := App l1 r1 in
-        if is_reducible t1 limit c2 then beta_hap f limit (S c2) (eval_m t1)
-        else
-          bind (beta_hap f limit c2 l1) (fun l2 c3 =>
-          ret (App l2 r1) c3)))
-    | _ => ret t count
-    end
-  end.
-
-Fixpoint beta_hsp (fuel limit count : nat) (t : term) : R :=
-  match fuel with 0 => None | S f =>
-    if limit_hit limit count then ret t count else
-    match t with
-    | Abs b => bind (beta_hsp f limit count b) (fun b1 c1 => ret (Abs b1) c1)
-    | App l r =>
-        bind (beta_hsp f limit count l) (fun l1 c1 =>
-        let t1 := App l1 r in
-        if is_reducible t1 limit c1 then beta_hsp f limit (S c1) (eval_m t1)
-        else ret t1 c1)
-    | _ => ret t count
-    end
-  end.
-
-Fixpoint beta_hno (fuel limit count : nat) (t : term) : R :=
-  match fuel with 0 => None | S f =>
-    if limit_hit limit count then ret t count else
-    match t with
-    | Abs b => bind (beta_hno f limit count b) (fun b1 c1 => ret (Abs b1) c1)
-    | App l r =>
-        bind (beta_hsp f limit count l) (fun l1 c1 =>
-        let t1 := App l1 r in
-        if is_reducible t1 limit c1 then beta_hno f limit (S c1) (eval_m t1)
-        else
-          bind (beta_hno f limit c1 l1) (fun l2 c2 =>
-          bind (beta_hno f limit c2 r) (fun r2 c3 =>
-          ret (App l2 r2) c3)))
-    | _ => ret t count
-    end
-  end.
-
-(** Term::reduce: [count] starts at 0 *)
-Definition reduce_m (fuel : nat) (o : order) (limit : nat) (t : term) : R :=
-  match o with
-  | CBN => beta_cbn fuel limit 0 t
-  | NOR => beta_nor fuel limit 0 t
-  | CBV => beta_cbv fuel limit 0 t
-  | APP => beta_app fuel limit 0 t
-  | HSP => beta_hsp fuel limit 0 t
-  | HNO => beta_hno fuel limit 0 t
-  | HAP => beta_hap fuel limit 0 t
-  end.
+    The functions (update_free_variables, _apply, apply, eval, is_reducible, the seven traversals and the
+    dispatch of Term::reduce) are in Gen/ReductionSrc.v, which lib/trans_reduction.py REGENERATES from the Rust
+    source on every run: [&mut self] becomes an input and an output term, [&mut count] is threaded as a pair
+    component, and Rust recursion that may not terminate (limit 0) is given explicit fuel ([None] means "out of
+    fuel", never a normal-looking value).  Here: what is defined on top of them. *)
+From LC Require Export Model.ReductionPrelude Gen.ReductionSrc.
 
 (** beta(term, order, limit) *)
 Definition beta_fn (fuel : nat) (t : term) (o : order) (limit : nat) : option term :=
